@@ -171,9 +171,10 @@ def build_reply(spec, request_bytes):
     if status is None:
         line0 = version
     else:
-        line0 = "%s %s" % (version, status)
+        # "sep": what separates version, status and reason (a single SP unless the status line is malformed on purpose)
+        line0 = "%s%s%s" % (version, spec.get("sep", " "), status)
         if reason is not None:
-            line0 += " " + reason
+            line0 += spec.get("sep2", " ") + reason
     lines = [line0.encode("latin-1")]
     for h in spec.get("headers", canonical_spec()["headers"]):
         name, value = h[0], h[1]
